@@ -41,7 +41,7 @@ class LocationMediaMessageProtocolEntity(MediaMessageProtocolEntity):
 
     @property
     def address(self):
-        return self.proto.addrees
+        return self.media_specific_attributes.address
 
     @address.setter
     def address(self, value):
